@@ -438,6 +438,8 @@ def run(an: Analysis, rep):
     from .common import assert_guard_rule as _agrx
     rep.run(_agrx, an, rep, "R04.A", ["from_code", "parameters", "args_len"])
     rep.run(r04f, an, rep)
+    from .common import process_state_rule as _psr
+    rep.run(_psr, an, rep, "R04.S", ["from_code", "parameters", "args_len"])
     from .common import SharedRules as _SR4
     from . import c01 as _c01
     for V in VERSIONS:
@@ -1170,6 +1172,8 @@ def r04f(an, rep, rule="R04.W", roundtrip=False):
         ("async def ag(): yield", FN + ("ASYNC_GENERATOR", "NOFREE"), 0, 0, 0, (), ("doc",), (), "ag", ((), (), None, (), None), "doc", "ASYNC_GENERATOR"),
         ("a function with a cell variable", FN, 1, 0, 0, ("a",), (None,), ("a",), "outer", ((), ("a",), None, (), None), None, None),
         ("a module", ("NOFREE",), 0, 0, 0, (), ("doc", None), (), "<module>", "nofunc", None, None),
+        # 3.8 / 3.9 modules whose first statement is a multi-line display: the first instruction carries a line before co_firstlineno
+        ("a module whose first instruction is one line above co_firstlineno", ("NOFREE",), 0, 0, 0, (), (1, None), (), "<module>", "nofunc", None, None),
         ("a class body that owns the __class__ cell", (), 0, 0, 0, (), ("C", None), ("__class__",), "C", "nofunc", None, None),
         ("a function whose constant is a string with a lone surrogate", FN + ("NOFREE",), 0, 0, 0, (), (None, "\ud83d x"), (), "f", ((), (), None, (), None), None, None),
         ("a function whose constant is a tuple with bytes, -0.0 and a surrogate inside", FN + ("NOFREE",), 0, 0, 0, (), (None, (b"\xff", -0.0, ("\udcff",), frozenset({1.0}))), (), "f", ((), (), None, (), None), None, None),
@@ -1207,14 +1211,17 @@ def r04f(an, rep, rule="R04.W", roundtrip=False):
             word = 0
             for f_ in flags:
                 word |= val_of[f_]
-            codeb = bytes([om["LOAD_CONST"], len(consts) - 1, om["RETURN_VALUE"], 0])
+            is_fn = "OPTIMIZED" in flags
+            locs = list(range(len(varnames))) if is_fn else []
+            codeb = bytes([x for i_ in reversed(locs) for x in (om["LOAD_FAST"], i_)] + [om["LOAD_CONST"], len(consts) - 1, om["RETURN_VALUE"], 0])
+            above_first = "one line above co_firstlineno" in wname
             code = Obj({"__cls__": "code", "co_code": codeb, "co_consts": tuple(consts), "co_names": (), "co_varnames": tuple(varnames), "co_freevars": tuple(freevars), "co_cellvars": tuple(cellvars),
                         "co_flags": word, "co_argcount": argc, "co_kwonlyargcount": kwonly, "co_nlocals": len(varnames), "co_stacksize": 1, "co_filename": "f.py", "co_name": coname,
                         "co_firstlineno": 3, **posonly_attr})
             if V >= (3, 10):
-                code["co_linetable"] = asm_linetable([(0, 0)], 4)
+                code["co_linetable"] = asm_linetable([(0, -1 if above_first else 0)] + ([(2, 0)] if above_first else []), len(codeb))
             else:
-                code["co_lnotab"] = b""
+                code["co_lnotab"] = bytes([0, 255, 2, 1]) if above_first else b""
             def from_flags(names_):
                 w_ = 0
                 for n_ in names_:
@@ -1238,7 +1245,12 @@ def r04f(an, rep, rule="R04.W", roundtrip=False):
             # the one instruction that loads a constant loads co_consts[-1]: the value itself, type- and bit-exact
             loaded = [i.get("arg") for b in (got.get("blocks") or ()) for i in b if isinstance(i, Obj) and i.get("name") == "LOAD_CONST"]
             wantc = consts[-1]
-            if len(loaded) != 1 or not isinstance(loaded[0], Obj) or loaded[0].get("__cls__") != "Constant":
+            fast = [i.get("arg") for b in (got.get("blocks") or ()) for i in b if isinstance(i, Obj) and i.get("name") == "LOAD_FAST"]
+            want_fast = [varnames[i_] for i_ in reversed(locs)]
+            got_fast = [a.get("varname") if isinstance(a, Obj) else a for a in fast]
+            if got_fast != want_fast:
+                why = f"LOAD_FAST {list(reversed(locs))} load {want_fast} in CPython (co_varnames by position), the decoded operands name {got_fast}"
+            elif len(loaded) != 1 or not isinstance(loaded[0], Obj) or loaded[0].get("__cls__") != "Constant":
                 why = f"the LOAD_CONST instruction is decoded as {loaded!r}"
             elif repr(loaded[0].get("constant")) != repr(wantc) or type(loaded[0].get("constant")) is not type(wantc):
                 why = f"LOAD_CONST loads {ascii(wantc)} in CPython, the decoded operand is {ascii(loaded[0].get('constant'))}"
